@@ -18,4 +18,4 @@ for d in sorted(glob.glob(os.path.join(ROOT,'seeded','C*'))):
         return s
     own=fmt(prop)
     others='; '.join('%s: %s'%(p,fmt(p)) for p in sorted(m.get('checks',{})) if p!=prop) or '-'
-    print('| %s | %s | %s | %s | %s |'%(sid,prop,m.get('short',m['title'])[:160],own,others))
+    print('| %s | %s | %s | %s | %s |'%(sid,prop,m.get('short',m['title']),own,others))
